@@ -355,25 +355,30 @@ func connProperty(t *testing.T, layer string, lp layerParams, tamper bool, setup
 // L1 Noise
 
 func TestL1NoiseFidelity(t *testing.T) {
+	defer noteFailure(t)
 	hx.Check(t, 1200, 48000, 0, connProperty(t, "noise", noiseParams, false, func(*connCase) secureSetup { return noiseSetup }))
 }
 
 func TestL1NoiseTamper(t *testing.T) {
+	defer noteFailure(t)
 	hx.Check(t, 500, 20000, 0, connProperty(t, "noise", noiseParams, true, func(*connCase) secureSetup { return noiseSetup }))
 }
 
 // L2 TLS
 
 func TestL2TLSFidelity(t *testing.T) {
+	defer noteFailure(t)
 	hx.Check(t, 500, 16000, 0, connProperty(t, "tls", tlsParams, false, func(*connCase) secureSetup { return tlsSetup }))
 }
 
 func TestL2TLSTamper(t *testing.T) {
+	defer noteFailure(t)
 	hx.Check(t, 300, 10000, 0, connProperty(t, "tls", tlsParams, true, func(*connCase) secureSetup { return tlsSetup }))
 }
 
 // L3 private-network conn (confidentiality only: fidelity part of the property)
 
 func TestL3PnetFidelity(t *testing.T) {
+	defer noteFailure(t)
 	hx.Check(t, 500, 16000, 0, connProperty(t, "pnet", pnetParams, false, func(c *connCase) secureSetup { return pnetSetup(c.Key) }))
 }
